@@ -78,3 +78,40 @@ func VerifHarness_C19_O3() {
 	verifAssert("dup-slice-trusted-only-with-more-than-a-third", !accepted || 3*k > n)
 	verifReach("end")
 }
+
+// O6: "all validator sets built by any sequence of additions and removals":
+// sets DERIVED from a set whose thresholds were already computed (and cached)
+// must report the thresholds of their own size.  Start size 1..3, up to 3
+// additions/removals (shape cases), thresholds queried before every step.
+func VerifHarness_C19_O6() {
+	start := 1 + verifChoice("start", 3)
+	var ps []*Peer
+	for i := 0; i < start; i++ {
+		ps = append(ps, NewPeer(verifPubHex(i), "", "p"))
+	}
+	set := NewPeerSet(ps)
+	next := start
+	ops := 3
+	for s := 0; s <= ops; s++ {
+		n := len(set.Peers)
+		sm := set.SuperMajority()
+		tc := set.TrustCount()
+		verifAssert("derived-set-sizes-agree", len(set.ByPubKey) == n && len(set.ByID) == n && set.Len() == n)
+		verifAssert("derived-set-supermajority-is-of-its-own-size", 3*sm > 2*n && 3*(sm-1) <= 2*n)
+		if n > 1 {
+			verifAssert("derived-set-trust-count-is-of-its-own-size", 3*tc >= n && 3*(tc-1) < n)
+		} else {
+			verifAssert("single-or-empty-set-trust-count-zero", tc == 0)
+		}
+		if s == ops {
+			break
+		}
+		if verifChoice("op"+string(rune('0'+s)), 2) == 0 {
+			set = set.WithNewPeer(NewPeer(verifPubHex(next), "", "p"))
+			next++
+		} else if n > 0 {
+			set = set.WithRemovedPeer(set.Peers[verifChoice("victim"+string(rune('0'+s)), n)])
+		}
+	}
+	verifReach("end")
+}
